@@ -23,6 +23,7 @@ DRIVERS = ["stats"]
 THEOREMS = ["C19_accepted_le_added", "C19_human_plus_accepted_eq_added", "C19_ai_eq_accepted_plus_mixed",
             "C19_ai_le_added", "C19_accepted_is_intersection", "C19_tool_accepted_sums",
             "C19_tool_mixed_sums_when_uncapped", "C19_tool_totals_sum", "C19_added_deleted_passthrough",
+            "C19_merge_accepted_zero",
             "C19_numstat_totals", "C19_tool_mixed_refuted", "C19_overlap_double_count_refuted",
             "C19_duplicate_section_refuted", "C19_missing_prompt_refuted", "C19_overflow_refuted",
             "C19_nonvacuous"]
@@ -312,7 +313,7 @@ def gen_case(r, ign_table):
     prompts = []
     for h in sorted(set(used) | ({r.pick(HASHES)} if r.chance(1, 6) else set())):
         if r.chance(23, 25):
-            ov = r.weighted([(45, 0), (30, r.range(1, 5)), (18, r.range(8, 60)), (7, gen_counter(r, 9))])
+            ov = r.weighted([(66, 0), (20, r.range(1, 3)), (9, r.range(8, 60)), (5, gen_counter(r, 9))])
             prompts.append([C.cps(h), C.cps(r.pick(TOOLS)), C.cps(r.pick(MODELS)), gen_counter(r, 50),
                             gen_counter(r, 50), r.range(0, 9), ov])
     note = None if style == "nonote" else [atts, prompts]
@@ -647,15 +648,19 @@ def crafted_witnesses(base):
             h: {"agent_id": {"tool": "toolx", "id": h, "model": "m1"}, "human_author": None, "messages": [],
                 "total_additions": 1, "total_deletions": 0, "accepted_lines": 1, "overriden_lines": ov}
             for h, ov in (("aaaaaaaaaaaaaaaa", 5), ("bbbbbbbbbbbbbbbb", 0))}}
-        for name, body in (("K1", "a.txt\n  aaaaaaaaaaaaaaaa 2\n"),
-                           ("K2", "a.txt\n  aaaaaaaaaaaaaaaa 2\n  bbbbbbbbbbbbbbbb 2\n")):
-            text = body + "---\n" + json.dumps(md, indent=2)
+        md4 = json.loads(json.dumps(md))
+        md4["prompts"]["aaaaaaaaaaaaaaaa"]["overriden_lines"] = U32
+        for name, body, meta in (("K1", "a.txt\n  aaaaaaaaaaaaaaaa 2\n", md),
+                                 ("K2", "a.txt\n  aaaaaaaaaaaaaaaa 2\n  bbbbbbbbbbbbbbbb 2\n", md),
+                                 ("K3", "a.txt\n  cccccccccccccccc 2\n", md),
+                                 ("K4", "a.txt\n  aaaaaaaaaaaaaaaa 2\n", md4)):
+            text = body + "---\n" + json.dumps(meta, indent=2)
             sim.realgit("notes", "--ref=ai", "add", "-f", "-m", text, sha)
             rc, so, se = sim.gitai("stats", sha, "--json")
             try:
                 out[name] = json.loads(so)
             except Exception:
-                out[name] = {"error": (so + se)[-300:]}
+                out[name] = {"error": (so + se)[-300:], "rc": rc}
         return out
     finally:
         shutil.rmtree(sim.base, ignore_errors=True)
@@ -684,7 +689,10 @@ def run(ctx):
     n_stats = 5000 if quick else 400000
     n_ns = 1500 if quick else 60000
     n_hist = 40 if quick else 1500
-    obligations, violations, known_seen = [], [], set()
+    obligations, violations, known_seen = [], [], {}
+
+    def seen(k, where):
+        known_seen.setdefault(k, set()).add(where)
     mismatches = []
     DEF = default_patterns()
     psets = {"none": [], "defaults": DEF, "custom": ["*.txt", "docs/**", "web/*"], "bad": ["[", "a.txt", "src/[m.rs"]}
@@ -766,7 +774,7 @@ def run(ctx):
             if classes:
                 n_known_fail += 1
                 for k in classes:
-                    known_seen.add(KNOWN_TEXT[k])
+                    seen(k, "in-process")
                     dist["fail_class"][k] = dist["fail_class"].get(k, 0) + 1
             else:
                 violations.append((f"{what} on case {i}: impl {res}",
@@ -793,6 +801,32 @@ def run(ctx):
                         mismatches.append((i, f"predicate {k}: python {v} model {md.get(k)}"))
         if len(samples) < 3 and i.startswith("st") and res != "panic" and res[3] > 0:
             samples.append({"case": "stats", "input": body_impl(c)[:300], "impl": str(res)[:200], "facts": facts})
+
+    # ---- line_range_overlap_len alone, on sorted duplicate-free lists (incl. u32 extremes)
+    ov_cases = []
+    for i in range(1500 if quick else 100000):
+        hi = r.pick([12, 40, U32])
+        ls = sorted({r.range(0, hi) if hi != U32 else r.pick([0, 1, 2, 5, U32, U32 - 1, U32 - 2, 2147483648, r.range(0, U32)])
+                     for _ in range(r.range(0, 10))})
+        k = r.below(4)
+        a = r.pick(ls) if ls and r.chance(1, 2) else r.range(0, min(hi, 45)) if hi != U32 else r.pick([0, U32, U32 - 1, 3])
+        if k == 0:
+            rg = ["s", a]
+        else:
+            b = r.pick(ls) if ls and r.chance(1, 2) else (a + r.range(0, 9) if hi != U32 else r.pick([U32, a, 7]))
+            rg = ["r", a, b] if r.chance(9, 10) else ["r", b, a]
+        ov_cases.append((f"ov{i}", C.sx(rg) + " " + C.sx(ls), rg, ls))
+    ov_impl = C.run_cases(C.VHARNESS, "c19-overlap", [(i, b) for i, b, _, _ in ov_cases])
+    ov_model = C.run_cases(C.driver_path("stats"), "c19-overlap", [(i, b) for i, b, _, _ in ov_cases]) if ctx.model_ok else {}
+    for i, b, rg, ls in ov_cases:
+        want = sum(1 for x in ls if in_range(rg, x))
+        if ov_impl.get(i) != str(want):
+            violations.append((f"line_range_overlap_len({rg}, {ls}) = {ov_impl.get(i)}, the range holds {want} of the lines",
+                               {"kind": "overlap", "range": rg, "lines": ls, "impl": ov_impl.get(i)}))
+        if ctx.model_ok and ov_model.get(i) != ov_impl.get(i):
+            mismatches.append((i, f"overlap_len: impl {ov_impl.get(i)} model {ov_model.get(i)} on {b}"))
+        if want:
+            distinct.add(("ov", b))
 
     # ---- (b) numstat stream through the real get_git_diff_stats
     nsdir = os.path.join(ctx.scratch, "ns")
@@ -855,7 +889,7 @@ def run(ctx):
                 if res != "panic":
                     violations.append((f"numstat totals overflow u32 but no panic: {text!r}", {"kind": "numstat", "text": text}))
                 else:
-                    known_seen.add(KNOWN_TEXT["K4"])
+                    seen("K4", "numstat in-process")
             elif res != (ea, ed):
                 violations.append((f"numstat totals {res} != ({ea}, {ed}) for {text!r} ignoring {ign}",
                                    {"kind": "numstat", "text": text, "ignored": ign, "impl": res}))
@@ -957,7 +991,7 @@ def run(ctx):
                 if classes:
                     n_known_fail += 1
                     for kk in classes:
-                        known_seen.add(KNOWN_TEXT[kk] + " [seen on a generated history]")
+                        seen(kk, "generated history, real binary")
                 else:
                     violations.append((f"{what} on commit {cid} ({rec['sha'][:10]}, {rec['parents']} parents): stats {rec['stats'].strip()[:300]}",
                                        {"kind": "system", "history": h["idx"], "seed": ctx.seed, "commit": rec,
@@ -998,29 +1032,39 @@ def run(ctx):
 
     # ---- known-class witnesses with the real binary
     wit = crafted_witnesses(ctx.scratch)
-    k1 = wit.get("K1", {})
-    if "error" in k1 or "error" in wit.get("K2", {}):
-        obligations.append(("witness:crafted notes readable by git-ai stats", False, str(wit)[:300]))
-    else:
+    k1, k2, k3, k4 = (wit.get(k, {"error": "missing"}) for k in ("K1", "K2", "K3", "K4"))
+    readable = not any("error" in w for w in (k1, k2, k3))
+    obligations.append(("witness:hand-written notes are read by git-ai stats", readable, "" if readable else str(wit)[:300]))
+    if readable:
         t1 = k1.get("tool_model_breakdown", {})
         if sum(t["mixed_additions"] for t in t1.values()) != k1.get("mixed_additions"):
-            known_seen.add(KNOWN_TEXT["K1"] + " [real binary, hand-written note: %d vs %d]"
-                           % (sum(t["mixed_additions"] for t in t1.values()), k1.get("mixed_additions")))
-        k2 = wit["K2"]
+            seen("K1", "real binary on a hand-written note: per-tool mixed %d vs total %d"
+                 % (sum(t["mixed_additions"] for t in t1.values()), k1.get("mixed_additions")))
         if k2.get("ai_accepted", 0) > k2.get("git_diff_added_lines", 0):
-            known_seen.add(KNOWN_TEXT["K2"] + " [real binary, hand-written note: accepted %d > added %d]"
-                           % (k2["ai_accepted"], k2["git_diff_added_lines"]))
+            seen("K2", "real binary on a hand-written note: accepted %d > added %d"
+                 % (k2["ai_accepted"], k2["git_diff_added_lines"]))
+        t3 = k3.get("tool_model_breakdown", {})
+        if sum(t["ai_accepted"] for t in t3.values()) != k3.get("ai_accepted"):
+            seen("K3", "real binary on a hand-written note: per-tool accepted %d vs total %d"
+                 % (sum(t["ai_accepted"] for t in t3.values()), k3.get("ai_accepted")))
+    if "error" in k4:
+        seen("K4", "real (debug) binary on a hand-written note with overriden_lines = u32::MAX: stats exits %s"
+             % k4.get("rc"))
+    else:
+        t4 = k4.get("tool_model_breakdown", {})
+        if any(t["ai_additions"] != t["ai_accepted"] + t["mixed_additions"] for t in t4.values()):
+            seen("K4", "real binary on a hand-written note: per-tool ai_additions != accepted + mixed")
 
     ok_corr = not mismatches
     obligations.append(("tie:correspondence Model/Stats.v vs stats.rs (in-process, numstat, whole command)",
                         ok_corr and ctx.model_ok,
                         "; ".join(f"{m[0]}: {m[1]}" for m in mismatches[:3]) if mismatches else
                         ("" if ctx.model_ok else "model did not build")))
-    evaluations = len(cases) + len(ns_cases) + sys_commits
+    evaluations = len(cases) + len(ns_cases) + len(ov_cases) + sys_commits
     return {
         "obligations": obligations,
         "violations": violations,
-        "known_seen": sorted(known_seen),
+        "known_seen": [f"{KNOWN_TEXT[k]} [seen: {'; '.join(sorted(v))}]" for k, v in sorted(known_seen.items())],
         "searched": f"{len(cases)} generated note/diff cases through accepted_lines_from_attestations + "
                     f"stats_from_authorship_log, {len(ns_cases)} numstat texts through get_git_diff_stats, "
                     f"{sys_commits} commits of {n_hist} generated histories through git-ai stats --json; "
